@@ -58,7 +58,47 @@ fn build_hierarchy(word: &[Letter], tri: &[P], rect: (P, P), path: &[P]) -> Layo
     cur
 }
 
+/// A hierarchy with SIBLING placements (the chain hierarchy has one instance per level): top holds [mid @ word[0], leaf @ word[last]];
+/// mid holds one leaf per remaining letter. The leaf is a single triangle.
+fn build_siblings(word: &[Letter], tri: &[P]) -> Layout {
+    let mk = |s: Shape| Element { net: None, layer: LayerKey::default(), purpose: LayerPurpose::Drawing, inner: s };
+    let leaf: Ptr<Cell> = Ptr::new(Cell::from(Layout { name: "leaf".into(), insts: vec![], elems: vec![mk(Shape::Polygon(Polygon { points: tri.iter().map(|p| pt(*p)).collect() }))], annotations: vec![] }));
+    let inst = |name: String, cell: &Ptr<Cell>, l: &Letter| Instance { inst_name: name, cell: cell.clone(), loc: pt(l.loc), reflect_vert: l.reflect, angle: l.angle };
+    let mid = Layout { name: "mid".into(), insts: word[1..].iter().enumerate().map(|(i, l)| inst(format!("m{}", i), &leaf, l)).collect(), elems: vec![], annotations: vec![] };
+    let mid: Ptr<Cell> = Ptr::new(Cell::from(mid));
+    Layout { name: "top".into(), insts: vec![inst("a".into(), &mid, &word[0]), inst("b".into(), &leaf, &word[word.len() - 1])], elems: vec![], annotations: vec![] }
+}
+
 impl C12 {
+    /// Flattening a hierarchy with sibling instances: every leaf triangle must be the image under ITS OWN path's composition
+    fn check_siblings(&self, cx: &mut Cx, word: &[Letter]) {
+        if word.len() < 2 {
+            return;
+        }
+        let tri = [(0i64, 0i64), (3, 0), (0, 2)];
+        let top = build_siblings(word, &tri);
+        let m0 = IMap::instance(word[0].loc, word[0].reflect, word[0].quarter);
+        let mut want: Vec<Vec<P>> = word[1..].iter().map(|l| IMap::compose(&m0, &IMap::instance(l.loc, l.reflect, l.quarter))).map(|m| tri.iter().map(|q| m.apply(*q)).collect()).collect();
+        let last = &word[word.len() - 1];
+        let ml = IMap::instance(last.loc, last.reflect, last.quarter);
+        want.push(tri.iter().map(|q| ml.apply(*q)).collect());
+        want.sort();
+        cx.eval();
+        match guard(|| top.flatten()) {
+            Err(c) => cx.violation(&format!("siblings|flatten-panic|{}", c.norm_msg()), json!({"word": describe(word), "panic": c.msg})),
+            Ok(Err(e)) => cx.violation("siblings|flatten-error", json!({"word": describe(word), "error": format!("{:?}", e)})),
+            Ok(Ok(elems)) => {
+                let mut got: Vec<Vec<P>> = elems.iter().filter_map(|e| if let Shape::Polygon(p) = &e.inner { Some(p.points.iter().map(tp).collect()) } else { None }).collect();
+                got.sort();
+                if got != want {
+                    cx.count("sibling_flatten_mismatches");
+                    cx.violation("siblings|flatten-shapes", json!({"word": describe(word), "got": got, "exact": want}));
+                } else {
+                    cx.count("sibling_flatten_agree");
+                }
+            }
+        }
+    }
     /// All clauses for one right-angle placement chain (exact arithmetic expected)
     fn check_word(&self, cx: &mut Cx, word: &[Letter], points: &[P]) {
         let class = format!("depth{}", word.len().min(2)); // depth1 | depth2(+)
@@ -168,6 +208,7 @@ impl C12 {
                 cx.count("flatten_agree");
             }
         }
+        self.check_siblings(cx, word);
     }
     fn word_from_index(&self, mut idx: u64, depth: usize, offvar: usize) -> Vec<Letter> {
         let mut w = Vec::new();
@@ -205,6 +246,7 @@ impl Prop for C12 {
         "EXHAUSTIVE over right-angle placement chains: 14 orientation letters (reflect x angle in {None,0,90,180,270,-90,360}) at depth 1..4, i.e. all 14^d words, each with 9 offset assignments (depth 4: 1 in quick, 9 in thorough) from {-7..7}^2, \
          applied to all 49 points of the grid {-3..3}^2: Point::transform(cascade of Transform::from_instance) must equal the composed integer maps (reflect, rotate CCW, translate; refs/geom.rs) exactly; at depth 1 also equal to cascade(translate, cascade(rotate, reflect_vert)); \
          Layout::flatten of the nested hierarchy (triangle, rectangle, path in the leaf) must give the images of the points, with the triangle's orientation sign flipped exactly when the composition has determinant -1. \
+         Words of depth >= 2 are also laid out with SIBLING placements (top holds mid@w0 and leaf@w_last, mid holds one leaf per remaining letter) and the flattened triangles compared as a multiset with each path's own composition. \
          SEEDED: the same with offsets/points up to +-2^30, and general angles against a range-reduced sin/cos reference with tolerance 0.5+1e-5. distinct_nontrivial = distinct (word, offsets) chains."
             .into()
     }
